@@ -532,17 +532,23 @@ def run_gibbs_chain(case, drv):
         return skip("zero joint")
     start = max(sorted(table), key=lambda k: table[k])          # a state of positive probability
     st = [State(pn[v], start[v]) for v in range(n)]
-    random.Random(case["shuffle"]).shuffle(st)                   # the start state may list the variables in any order
+    if case["shuffle"] % 3:
+        random.Random(case["shuffle"]).shuffle(st)               # the start state may list the variables in any order ...
+    else:
+        order_ = list(GibbsSampling(model).variables)            # ... the sampler's own order included
+        st = sorted(st, key=lambda s_: order_.index(s_.var))
+    st_before = list(st)
     N = case["size"]
     tags = dict(kind=case["kind"], api=case["api"], size=N, n=n)
 
     def run(seed):
+        # the SAME list object is handed to both runs: it is an input, not the chain's working state
         g = GibbsSampling(model)
         if case["api"] == "sample":
-            df = g.sample(start_state=list(st), size=N, seed=seed)
+            df = g.sample(start_state=st, size=N, seed=seed)
             return [tuple(int(df[str(pn[v])].iloc[i]) for v in range(n)) for i in range(len(df))]
         rows = []
-        for state in g.generate_sample(start_state=list(st), size=N, seed=seed):
+        for state in g.generate_sample(start_state=st, size=N, seed=seed):
             d = {s_.var: int(s_.state) for s_ in state}
             rows.append(tuple(d[pn[v]] for v in range(n)))
         return rows
@@ -551,6 +557,8 @@ def run_gibbs_chain(case, drv):
         rows2 = run(case["seed"])
     except Exception as e:
         return fail(f"GibbsSampling.{case['api']} raised {type(e).__name__}: {e}", **tags)
+    if st != st_before:
+        return fail(f"{case['api']} modified the caller's start_state list: {st_before} -> {st}", **tags)
     if len(rows) != N:
         return fail(f"{case['api']}(size={N}) produced {len(rows)} states", **tags)
     if rows != rows2:
@@ -598,6 +606,10 @@ def gen_repro(rng, tier):
         if api == "forward" and rng.random() < .5:
             hidden = rng.sample(range(n), 1)
             case["latents"] = hidden
+            job["latents"] = rng.random() < .5
+        if api.startswith("simulate") and n >= 4 and rng.random() < .6:
+            # two or more declared latent variables (string names: their set order depends on the hash seed)
+            case["latents"] = rng.sample(range(n), 2)
             job["latents"] = rng.random() < .5
         if api == "simulate_missing":
             job["missing_prob"] = rng.choice([0.1, 0.3, 0.5])
